@@ -49,6 +49,14 @@ func negativeControlFamily(tier string) *FamilySpec {
 	return fs
 }
 
+// rangeFuncFamily: a go 1.23 module; range-over-func is not supported, but a loop of that kind
+// without a yield must be preserved as it is
+func rangeFuncFamily() *FamilySpec {
+	fs := HandFamily("RANGEFUNC", "rangefunc.go.txt")
+	fs.Template.GoVer = "1.23"
+	return fs
+}
+
 func rejectFamily() *FamilySpec {
 	sp := handSpec("REJECT", "reject.go.txt")
 	sp.NoRef, sp.DeriveRef, sp.NoTmp = true, false, true
@@ -61,7 +69,9 @@ func C12(tier string) *core.Report {
 	inj := HandFamily("INJECT-hand", "inject.go.txt")
 	inj.Template.NoTmp = true
 	inj.MustTypeCheck = false
-	fams := []*FamilySpec{injectFamily(tier), inj}
+	rf := rangeFuncFamily()
+	rf.Template.NoTmp = true
+	fams := []*FamilySpec{injectFamily(tier), inj, rf}
 	verdicts := map[string]int{}
 	for _, fr := range runFamilies(r, fams, tier) {
 		// violation iff the program builds and behaves differently from the source
@@ -70,9 +80,9 @@ func C12(tier string) *core.Report {
 		}
 		for _, o := range fr.Outcomes {
 			verdicts[o.Status]++
-			if len(o.Key) > 2 && o.Status != "explored" && o.Status != "discarded" && isNegativeControl(o.Key) {
+			if len(o.Key) > 2 && o.Status != "explored" && o.Status != "discarded" && (isNegativeControl(o.Key) || fr.Spec.Name == "RANGEFUNC") {
 				r.Fail(core.Failure{Key: fr.Spec.Name + ":" + o.Key, Kind: "negative-control-" + o.Status, Detail: o.Sig,
-					What: "a construct inside a nested plain closure (where it is supported) is rejected or breaks the build"})
+					What: "a construct inside a nested plain closure, or a native loop that needs no translation, is rejected or breaks the build"})
 			}
 		}
 	}
